@@ -49,7 +49,7 @@ type c12SL struct {
 type c12Spec struct {
 	Hop            int
 	M, O           bool
-	Reach, Retrans int // seconds
+	Reach, Retrans int // units of 250 ms (the wire fields are milliseconds)
 	MTU            int // 0 = absent
 	Prefixes       []c12Pfx
 	Routes         []c12Rt
@@ -72,12 +72,15 @@ func c12Pref(s string) ndp.Preference {
 
 func sec(n int) time.Duration { return time.Duration(n) * time.Second }
 
+// qsec: quarter seconds (timers differing within one second are still different).
+func qsec(n int) time.Duration { return time.Duration(n) * 250 * time.Millisecond }
+
 // ra builds the advertisement a spec stands for (option order as CoreRAD emits).
 func (s c12Spec) ra() *ndp.RouterAdvertisement {
 	ra := &ndp.RouterAdvertisement{
 		CurrentHopLimit: uint8(s.Hop), ManagedConfiguration: s.M, OtherConfiguration: s.O,
 		RouterSelectionPreference: ndp.Medium, RouterLifetime: 1800 * time.Second,
-		ReachableTime: sec(s.Reach), RetransmitTimer: sec(s.Retrans),
+		ReachableTime: qsec(s.Reach), RetransmitTimer: qsec(s.Retrans),
 	}
 	for _, p := range s.Prefixes {
 		x := netip.MustParsePrefix(p.Prefix)
@@ -118,7 +121,7 @@ func (s c12Spec) ra() *ndp.RouterAdvertisement {
 func (s c12Spec) iface() config.Interface {
 	ifi := config.Interface{
 		Name: "eth0", Advertise: true, MinInterval: 200 * time.Second, MaxInterval: 600 * time.Second,
-		Managed: s.M, OtherConfig: s.O, ReachableTime: sec(s.Reach), RetransmitTimer: sec(s.Retrans),
+		Managed: s.M, OtherConfig: s.O, ReachableTime: qsec(s.Reach), RetransmitTimer: qsec(s.Retrans),
 		HopLimit: uint8(s.Hop), DefaultLifetime: 1800 * time.Second, Preference: ndp.Medium,
 	}
 	for _, p := range s.Prefixes {
@@ -407,8 +410,8 @@ func c12Aspects() []c12Aspect {
 		{"hop_limit", prod(func(s *c12Spec) { s.Hop = 0 }, func(s *c12Spec) { s.Hop = 64 }, func(s *c12Spec) { s.Hop = 65 })},
 		{"managed", prod(func(s *c12Spec) { s.M = false }, func(s *c12Spec) { s.M = true })},
 		{"other", prod(func(s *c12Spec) { s.O = false }, func(s *c12Spec) { s.O = true })},
-		{"reachable", prod(func(s *c12Spec) { s.Reach = 0 }, func(s *c12Spec) { s.Reach = 1 }, func(s *c12Spec) { s.Reach = 2 })},
-		{"retransmit", prod(func(s *c12Spec) { s.Retrans = 0 }, func(s *c12Spec) { s.Retrans = 1 }, func(s *c12Spec) { s.Retrans = 2 })},
+		{"reachable", prod(func(s *c12Spec) { s.Reach = 0 }, func(s *c12Spec) { s.Reach = 1 }, func(s *c12Spec) { s.Reach = 3 }, func(s *c12Spec) { s.Reach = 4 }, func(s *c12Spec) { s.Reach = 6 }, func(s *c12Spec) { s.Reach = 120 })},
+		{"retransmit", prod(func(s *c12Spec) { s.Retrans = 0 }, func(s *c12Spec) { s.Retrans = 1 }, func(s *c12Spec) { s.Retrans = 3 }, func(s *c12Spec) { s.Retrans = 4 }, func(s *c12Spec) { s.Retrans = 6 }, func(s *c12Spec) { s.Retrans = 122 })},
 		{"mtu", prod(func(s *c12Spec) { s.MTU = 0 }, func(s *c12Spec) { s.MTU = 1500 }, func(s *c12Spec) { s.MTU = 1280 })},
 		{"prefix", cross(
 			[]func(*c12Spec){pf(), pf(c12Pfx{P1, 100, 50}), pf(c12Pfx{P1, 100, 50}, c12Pfx{P2, 200, 100}), pf(c12Pfx{P148, 100, 50}, c12Pfx{P1, 100, 50})},
@@ -457,7 +460,7 @@ func c12Bases() [][2]c12Spec {
 func TestVerifC12(t *testing.T) {
 	r := ev.Begin("C12", "pairs")
 	defer r.End(t)
-	r.Rule = "pairs (own RA, received RA): for each of 11 aspects (hop limit, M, O, reachable, retransmit, MTU, prefixes, routes, RDNSS, DNSSL, captive portal) the full product of a small value domain (absent / equal / different lifetime, contents, count, order, preference, prefix length; both directions) with the other aspects equal (from a full and a minimal base), plus every aspect different at once and all-but-one (up to 17 inconsistencies in one RA) - quick; all pairs of aspects, full product of both - thorough; the received RA always passes through ndp.MarshalMessage/ParseMessage; checked on verifyRAs and through Advertiser.handle (log lines, inconsistencies_total, hook); non-trivial = the two RAs differ in at least one compared aspect or share an option kind; distinct = distinct (own, received)"
+	r.Rule = "pairs (own RA, received RA): for each of 11 aspects (hop limit, M, O, reachable and retransmit timer {0, 250ms, 750ms, 1s, 1.5s, 30s/30.5s}, MTU, prefixes, routes, RDNSS, DNSSL, captive portal) the full product of a small value domain (absent / equal / different lifetime, contents, count, order, preference, prefix length; both directions) with the other aspects equal (from a full and a minimal base), plus every aspect different at once and all-but-one (up to 17 inconsistencies in one RA) - quick; all pairs of aspects, full product of both - thorough; the received RA always passes through ndp.MarshalMessage/ParseMessage; checked on verifyRAs and through Advertiser.handle (log lines, inconsistencies_total, hook); non-trivial = the two RAs differ in at least one compared aspect or share an option kind; distinct = distinct (own, received)"
 	r.Assumptions = []string{"a difference in hop limit where one side is 0 (unspecified) is a don't-care: RFC 4861 exempts it, the statement says 'differing'"}
 
 	if r.Replay != nil {
